@@ -292,12 +292,13 @@ type histPlan struct {
 	ramp     string // "", "small" (crosses 255), "big" (crosses 65,535)
 	uniq     int
 	inDomain bool
+	bare     bool // no attributes / events / links / exemplars anywhere
 }
 
 func (r *run) genBatch(hp *histPlan, i int) *batchIn {
 	t := r.tape
 	b := &batchIn{signal: hp.signals[t.Draw(core.Gen, len(hp.signals))], kind: "normal"}
-	g := &G{t: t, InDomain: hp.inDomain}
+	g := &G{t: t, InDomain: hp.inDomain, Bare: hp.bare}
 	switch {
 	case hp.ramp == "small" && t.Chance(core.Gen, 2, 3):
 		// a few hundred items with unique strings: crosses 255 quickly
